@@ -1,3 +1,4 @@
+import re
 from props.common import *
 import ipaddress
 
@@ -258,6 +259,25 @@ def oracle_local(case, impl):
     return None
 
 
+
+def oracle_hrefresh(case, impl):
+    """C12 across refreshes: a name listed in the file before AND after the rewrite must be answered
+    locally after the refresh, whatever happened to the re-read."""
+    f = case.split(" ")
+    dec = lambda t: [] if t == "-" else [unhex(x) for x in t.split(",")]
+    n1, n2, pool = dec(f[2]), dec(f[3]), dec(f[4])
+    m = re.match(r"p1=([LU]*) p2=([LU]*)$", impl)
+    if not m or len(m.group(1)) != len(pool) or len(m.group(2)) != len(pool):
+        return "unexpected harness output " + impl[:60]
+    for i, n in enumerate(pool):
+        if n in n1 and m.group(1)[i] != "L":
+            return "%r is listed in the hosts file but was sent upstream" % n
+        if n in n1 and n in n2 and m.group(2)[i] != "L":
+            return "%r is listed in the hosts file before and after the rewrite (%s) but was sent upstream after the refresh" % (n, f[1])
+        if f[1] == "ok" and n not in n2 and m.group(2)[i] != "U":
+            return "%r was removed from the hosts file but is still answered locally after a successful refresh" % n
+    return None
+
 SPEC = dict(
         lean_module="NV.Props.C12",
         level_text="Kernel-checked theorems about an executable model of ptrIP / isPrivateReverse / hostsResolve / Proxy.Resolve with the "
@@ -271,7 +291,8 @@ SPEC = dict(
                    "(ASCII names). hosts_answer_shape is stated for names that pack as DNS names (an unpackable PTR target makes hostsResolve "
                    "fail and the query falls through: kept as hypothesis).",
         areas=[dict(name="local", n_quick=40000, n_thorough=1200000, shards_thorough=8, oracle=oracle_local,
-                    nontrivial=lambda c, i: c.startswith("resolve") and " up=0 " in i or (c.startswith("ptrip") and "ip=none" not in i))],
+                    nontrivial=lambda c, i: c.startswith("resolve") and " up=0 " in i or (c.startswith("ptrip") and "ip=none" not in i)),
+               dict(name="hrefresh", n_quick=150, n_thorough=3000, shards_thorough=4, oracle=oracle_hrefresh)],
         trusted=COMMON_TRUST + ["strconv.ParseUint, net.IP.String, net.ParseIP, strings.ToLower as described in NV/Model/Local.lean (exercised by the local area)",
                                 "hosts-file syntax (comments, field splitting, address parsing) is C18's subject; C12 takes the accepted lines"],
         assumptions=["query names are ASCII (strings.ToLower re-encodes bytes >= 0x80)",
